@@ -2038,6 +2038,10 @@ func (d *Document) parseDocument() error {
 	}
 
 done:
+	if d.Body == nil {
+		// 主文档部件中没有 w:document 根元素（空部件、根元素或命名空间不符）
+		return WrapError("parse_document", ErrInvalidDocument)
+	}
 	Infof("解析完成，共 %d 个元素", len(d.Body.Elements))
 	return nil
 }
